@@ -24,6 +24,7 @@ type rxFrame struct {
 	data    []byte
 	origLen int
 	at      time.Time
+	err     error // a read that fails (InjectReadError) instead of delivering a frame
 }
 
 type Socket struct {
@@ -204,6 +205,19 @@ func (s *Socket) Inject(frame []byte) bool {
 	return true
 }
 
+// InjectReadError makes one read of the socket fail with err (a receive error reported by the kernel, e.g. ENETDOWN
+// while the interface flaps). It reports whether the socket was still open.
+func (s *Socket) InjectReadError(err error) bool {
+	s.mu.Lock()
+	defer s.mu.Unlock()
+	if s.closed {
+		return false
+	}
+	s.queue = append(s.queue, rxFrame{err: err, at: time.Now()})
+	s.cond.Broadcast()
+	return true
+}
+
 // InjectOpen offers the frame to every socket that is currently open.
 func (w *World) InjectOpen(frame []byte) (accepted int) {
 	for _, s := range w.SocketList() {
@@ -245,6 +259,9 @@ func (s *Socket) Read() (data []byte, at time.Time, origLen int, err error) {
 	}
 	f := s.queue[0]
 	s.queue = s.queue[1:]
+	if f.err != nil {
+		return nil, time.Time{}, 0, f.err
+	}
 	s.last = f.data
 	return f.data, f.at, f.origLen, nil
 }
